@@ -109,6 +109,12 @@ def func_scen(prop, tier, rng):
                         tl = tails if not q else [tails[(a + b) % len(tails)], tails[(a + b + 1) % len(tails)]]
                         for tail in tl:
                             yield {'kind': kind, 'funcs': [enc(cat[a]), enc(cat[b])], 'ops': [['add', 0, 1]] + [list(o) for o in tail]}
+            # integer-typed receiver (as the PSTH returns) + an operand with fractional values
+            half = [[Fr(0), Fr(2), Fr(T)], [Fr(1, 2), Fr(1, 4)]] + ([[Fr(3, 4), Fr(5, 4)]] if kind == 'pwl' else [])
+            for a in range(len(cat)):
+                for tail in ([], [('mul', 0, Fr(1, 2))], [('copy', 0), ('add', 2, 1), ('mul', 2, Fr(3, 2))]):
+                    yield {'kind': kind, 'funcs': [enc(cat[a]), enc(half)], 'ints': 1, 'ops': [['add', 0, 1]] + [list(o) for o in tail]}
+                    yield {'kind': kind, 'funcs': [enc(cat[a]), enc(half)], 'ints': 1, 'ops': [list(o) for o in tail] + [['add', 0, 1]]}
     for _ in range(n):
         if prop == 'C09':
             kind = rng.choice(['pwc', 'pwl'])
@@ -197,6 +203,8 @@ def scenario_of_case(prop, op, fields):
                 sc['k'] = int(rest[0][0])
             return dec(sc) if prop == 'C11' else None
         else:
+            if prop in ('C09', 'C10', 'C11'):
+                return None
             p, ix, tfs = fields[0], fields[1], fields[2:]
             if op in ('merge', 'psth', 'poisson', 'time_series', 'isi_lengths', 'default_thresh_sq') and prop != 'C20':
                 return None
@@ -239,7 +247,98 @@ def complete(prop, sc):
     return sc
 
 
+X_SCALE = (Fr(1, 2 ** 40), Fr(0), 'times scaled by 2^-40')
+X_SHIFT = (Fr(1), Fr(2 ** 30), 'times shifted by 2^30')
+
+
+def affine_variant(sc, a, b, label):
+    """the same scenario on a tiny time scale / far from the origin (exact in doubles: all generated
+    times are dyadic with < 22 fractional bits). A comparison with an absolute or relative tolerance
+    that is invisible at the usual scale merges distinct spike times / breakpoints there."""
+    if 'raw' in sc or 'values' in sc or 'variant' in sc:
+        return None
+    T = lambda x: a * x + b
+    out = dict(sc)
+    if 'trains' in sc:
+        out['trains'] = [([T(x) for x in s_], T(ts), T(te)) for s_, ts, te in sc['trains']]
+        kw = dict(sc.get('kw', {}))
+        for k in ('mrts', 'max_tau'):
+            if kw.get(k) not in (None, 0, 'auto'):
+                kw[k] = kw[k] * a
+        out['kw'] = kw
+        if 'interval' in sc:
+            out['interval'] = [T(v) for v in sc['interval']]
+        for k in ('m1', 'm2', 'mt1', 'mt2'):
+            if k in sc:
+                out[k] = sc[k] * a
+    if 'funcs' in sc:
+        out['funcs'] = [[[T(v) for v in f[0]]] + [list(c) for c in f[1:]] for f in sc['funcs']]
+    if 'func' in sc:
+        f = sc['func']
+        out['func'] = [[T(v) for v in f[0]]] + [list(c) for c in f[1:]]
+    if 'intervals' in sc:
+        out['intervals'] = [[T(u), T(v)] for u, v in sc['intervals']]
+    if 'times' in sc:
+        out['times'] = [T(v) for v in sc['times']]
+    out['variant'] = label
+    return out
+
+
+AFFINE_EVERY = {'C01': 9, 'C02': 9, 'C03': 9, 'C04': 6, 'C05': 5, 'C06': 4, 'C07': 9, 'C09': 6, 'C10': 6, 'C11': 6,
+                'C14': 5, 'C15': 5, 'C16': 9, 'C17': 9, 'C18': 5, 'C20': 9}
+
+
+OWN0_EVERY = {'C01': 8, 'C02': 8, 'C03': 6, 'C04': 6, 'C05': 6, 'C06': 5, 'C14': 5, 'C15': 4, 'C16': 8, 'C17': 5}
+# (C07 is not in the table: its identity clauses compare the first train with a copy of itself, a pair whose
+#  common interval is the narrower one.)
+OWN0_AUTO = {'C03', 'C04', 'C05', 'C17'}
+
+
+def own0_variant(prop, sc, n):
+    """the same trains, but the FIRST train is handed to the implementation with its own, narrower
+    edges (the others keep the common interval, so every pair / sub-list containing another train
+    still reconciles to the common interval). By C13 nothing may change. Exposes code that uses the
+    un-reconciled first train (its edges, its threshold) somewhere."""
+    if 'raw' in sc or 'variant' in sc or 'own0' in sc or len(sc.get('trains', [])) < 2:
+        return None
+    s0, TS, TE = sc['trains'][0]
+    if any((a, b) != (TS, TE) for _, a, b in sc['trains']):
+        return None
+    lo, hi = (min(s0), max(s0)) if s0 else (TS + (TE - TS) / 4, TE - (TE - TS) / 4)
+    ts0 = TS + (lo - TS) / 2 if n % 3 else lo
+    te0 = hi + (TE - hi) / 2 if n % 2 else TE
+    if (ts0, te0) == (TS, TE):
+        te0 = hi
+    if (ts0, te0) == (TS, TE) or not ts0 < te0:
+        return None
+    out = dict(sc)
+    out['own0'] = [ts0, te0]
+    out['variant'] = 'first train on its own edges'
+    if prop in OWN0_AUTO and n % 2 == 0:
+        out['kw'] = dict(sc.get('kw', {}), mrts='auto')
+    return out
+
+
 def scenarios(prop, tier, rng):
+    """the property's scenario stream, plus an extreme-scale variant of every k-th scenario and an
+    unequal-edges variant of every m-th one"""
+    every = AFFINE_EVERY.get(prop)
+    own = OWN0_EVERY.get(prop)
+    n = 0
+    for sc in _scenarios(prop, tier, rng):
+        yield sc
+        n += 1
+        if every and n % every == 0:
+            v = affine_variant(sc, *(X_SCALE if (n // every) % 2 else X_SHIFT))
+            if v is not None:
+                yield v
+        if own and n % own == 0:
+            v = own0_variant(prop, sc, n // own)
+            if v is not None:
+                yield v
+
+
+def _scenarios(prop, tier, rng):
     """yield scenarios for property `prop`"""
     q = tier == 'quick'
     if prop in ('C09', 'C10', 'C11'):
@@ -350,6 +449,9 @@ def scenarios(prop, tier, rng):
             if prop == 'C08':
                 sc['alpha'] = rng.choice([Fr(2), Fr(1, 2), Fr(3), Fr(3, 4), Fr(1)])
                 sc['beta'] = rng.choice([Fr(0), Fr(-3), Fr(8), Fr(1, 4)])
+                if rng.random() < 0.25:
+                    # extreme but exact: tiny time unit / far from the origin
+                    sc['alpha'], sc['beta'] = rng.choice([(X_SCALE[0], Fr(0)), (Fr(1), X_SHIFT[1])])
                 sc.pop('interval', None)
             if prop == 'C20':
                 sc['bins'] = rng.choice([1, 2, 4, 8])
